@@ -657,7 +657,7 @@ def run(ctx):
     check_annotations(ctx)
     check_coselection(ctx)
     check_plot_args(ctx)
-    ctx.rule("C16.7", "series of the murphy, roc, error-decomposition, performance and droc diagrams by value: the element drawn at the generic index equals the definition as a rational function; provenance of the observed event, the probability, obs/fcst and the series' input")
+    ctx.rule("C16.7", "series of the murphy, roc, error-decomposition, performance, droc and reliability diagrams by value: the element drawn at the generic index equals the definition as a rational function; provenance of the observed event, the probability, obs/fcst and the series' input")
     from . import c16v
     c16v.check_diagram_values(ctx)
     ctx.rule("C16.8", "maps: the markers on the map of input f are selected and coloured by column f of the score matrix")
@@ -677,5 +677,5 @@ CLAIM = {
             "ignorance-contribution drop cases with p = 1.",
     "technique": "static analysis: loop-index discipline lint, normal-form comparison of index polynomials, comparison-shape evaluation of bin "
                  "tests over the finite order-relation domain, key/value wiring, drawing-call argument extraction by symbolic folding; C16.6 the matrix returned by Standard._get_x_y "
-                 "folded and taken apart (column f <- metric.compute(data, f, ...), -r intervals, no NaN-discarding reduction); C16.7 the series of the murphy, roc, error-decomposition, performance and droc diagrams by value: the drawing call's array arguments folded, the element at the generic index read back (vsa/arrays.py), event / probability / obs / fcst sub-terms abstracted into symbols, the rest compared with the definition as a rational function, provenance of the abstracted sub-terms checked structurally; C16.8 score-column index of every mask and colour on the map of input f",
+                 "folded and taken apart (column f <- metric.compute(data, f, ...), -r intervals, no NaN-discarding reduction); C16.7 the series of the murphy, roc, error-decomposition, performance, droc and reliability diagrams by value: the drawing call's array arguments folded, the element at the generic index read back (vsa/arrays.py), event / probability / obs / fcst sub-terms abstracted into symbols, the rest compared with the definition as a rational function, provenance of the abstracted sub-terms checked structurally; C16.8 score-column index of every mask and colour on the map of input f",
 }
